@@ -65,6 +65,15 @@ pub enum Op {
     /// a client whose handler occupies its worker thread (blocking section) for `ms` ms
     HoldBusy { l: u16, ms: u16 },
     Stop { graceful: bool, twice: bool, drop_future: bool },
+    /// every service stops reporting readiness (connections dispatched from now on stay queued at
+    /// their workers)
+    GateClose,
+    /// the services report readiness again: what was queued must now be served
+    GateOpen,
+    /// every worker dies (its service panics inside `call`) before the accept thread notices any
+    /// of the faults; the next connection makes it discover and report all of them in one burst.
+    /// Every one of them must be replaced and every replacement must serve.
+    PanicAll,
 }
 
 #[derive(Clone, Debug, Serialize, Deserialize, PartialEq)]
@@ -85,6 +94,11 @@ pub struct Case {
     /// which order of builder setters configures the server (all orders mean the same server)
     #[serde(default)]
     pub setters: u8,
+    /// shortly after a graceful stop has been requested, the handler of a connection in progress
+    /// occupies its worker thread for about 2.6 s (the worker's shutdown checks run late), then the
+    /// connection goes on; it is released only afterwards
+    #[serde(default)]
+    pub block_after_stop: bool,
 }
 
 #[derive(Clone, Copy, Debug, PartialEq, Eq)]
@@ -117,6 +131,22 @@ struct World {
     call_count: AtomicUsize,
     /// a service instance dropped while its worker thread unwinds takes this long to drop
     drop_ms: AtomicUsize,
+    /// while set every service call panics (and counts itself in `died`)
+    panic_all: AtomicBool,
+    died: AtomicUsize,
+    /// while set `poll_ready` answers Pending (the wakers are kept and woken when it is cleared)
+    gate_closed: AtomicBool,
+    gate_wakers: Mutex<Vec<std::task::Waker>>,
+}
+
+impl World {
+    fn open_gate(&self) {
+        let mut g = self.gate_wakers.lock().unwrap();
+        self.gate_closed.store(false, Ordering::SeqCst);
+        for w in g.drain(..) {
+            w.wake();
+        }
+    }
 }
 
 impl Drop for EchoSvc {
@@ -152,7 +182,15 @@ where
     type Error = ();
     type Future = Pin<Box<dyn Future<Output = Result<(), ()>>>>;
 
-    fn poll_ready(&self, _: &mut Context<'_>) -> Poll<Result<(), ()>> {
+    fn poll_ready(&self, cx: &mut Context<'_>) -> Poll<Result<(), ()>> {
+        if self.w.gate_closed.load(Ordering::SeqCst) {
+            let mut g = self.w.gate_wakers.lock().unwrap();
+            // (checked again under the lock: the gate may have been opened meanwhile)
+            if self.w.gate_closed.load(Ordering::SeqCst) {
+                g.push(cx.waker().clone());
+                return Poll::Pending;
+            }
+        }
         Poll::Ready(Ok(()))
     }
 
@@ -160,6 +198,10 @@ where
         self.w.call_count.fetch_add(1, Ordering::SeqCst);
         if self.w.panic_next.swap(false, Ordering::SeqCst) {
             panic!("verif: service panics inside call on purpose");
+        }
+        if self.w.panic_all.load(Ordering::SeqCst) {
+            self.w.died.fetch_add(1, Ordering::SeqCst);
+            panic!("verif: service panics inside call on purpose (all workers)");
         }
         let w = self.w.clone();
         let listener = self.listener;
@@ -192,10 +234,18 @@ where
                 return Ok(());
             }
             // hold the connection until the client releases it (a byte) or goes away
-            let mut b = [0u8; 1];
-            let _ = stream.read(&mut b).await;
-            if b[0] == b'P' {
-                panic!("verif: handler future panics on purpose");
+            loop {
+                let mut b = [0u8; 1];
+                let _ = stream.read(&mut b).await;
+                if b[0] == b'P' {
+                    panic!("verif: handler future panics on purpose");
+                }
+                if b[0] == b'B' {
+                    // a blocking section in the middle of the connection's life, then on with it
+                    std::thread::sleep(Duration::from_millis(w.block_ms.load(Ordering::SeqCst) as u64));
+                    continue;
+                }
+                break;
             }
             Ok(())
         })
@@ -301,12 +351,21 @@ fn block_on<F: Future>(f: F) -> F::Output {
 
 static UDS_SEQ: AtomicUsize = AtomicUsize::new(0);
 
+/// lets the server thread's system end when the run is over (however it ends)
+struct ExitGuard(Arc<AtomicBool>);
+impl Drop for ExitGuard {
+    fn drop(&mut self) {
+        self.0.store(true, Ordering::SeqCst);
+    }
+}
+
 struct Run {
     handle: ServerHandle,
     /// a clone of the handle taken before any command was issued (commands alternate between them)
     handle2: ServerHandle,
     server_thread: Option<thread::JoinHandle<()>>,
     server_done: Arc<AtomicBool>,
+    may_exit: ExitGuard,
     w: Arc<World>,
     clients: Vec<Client>,
     addrs: Vec<LAddr>,
@@ -373,7 +432,8 @@ impl Run {
             let (h, wt) = (self.held(), self.waiting());
             let in_backoff = self.backoff_until.iter().any(|b| b.map(|t| Instant::now() < t).unwrap_or(false));
             let busy = self.busy_until.map(|t| Instant::now() < t + Duration::from_millis(300)).unwrap_or(false);
-            let want_more = !self.paused && !self.stopped && !busy && wt > 0 && h < cap;
+            let gated = self.w.gate_closed.load(Ordering::SeqCst);
+            let want_more = !self.paused && !self.stopped && !busy && !gated && wt > 0 && h < cap;
             if !want_more {
                 break;
             }
@@ -410,6 +470,9 @@ pub fn run_case(c: &Case, prop: Prop) -> CaseResult {
     // a missed time bound is re-judged alone (twice) before it counts
     if let Err((f, true)) = &r {
         let again = [run_once(c, prop), run_once(c, prop)];
+        if std::env::var("VERIF_VERBOSE").is_ok() {
+            eprintln!("[l4] liveness finding {} ({}); re-judged: {:?}", f.sig, f.msg, again.iter().map(|a| a.as_ref().map(|_| "ok").map_err(|e| e.0.sig.clone())).collect::<Vec<_>>());
+        }
         if again.iter().all(|a| matches!(a, Err((_, _)))) {
             return Err(f.clone());
         }
@@ -439,9 +502,9 @@ fn run_once(c: &Case, prop: Prop) -> Result<Obs, (Fail, bool)> {
 
 fn run_once_inner(c: &Case, prop: Prop) -> Result<Obs, (Fail, bool)> {
     let nl = c.listeners.len().clamp(1, 2);
-    let workers = c.workers.clamp(1, 3);
+    let workers = if c.ops.contains(&Op::PanicAll) { c.workers.clamp(1, 32) } else { c.workers.clamp(1, 3) };
     let limit = if c.limit >= 12 { 12 } else { c.limit.clamp(1, 4) };
-    let w = Arc::new(World { calls: Mutex::new(vec![]), gauge: Mutex::new(HashMap::new()), over_limit: Mutex::new(None), limit, panic_next: AtomicBool::new(false), factory_count: AtomicUsize::new(0), block_ms: AtomicUsize::new(0), call_count: AtomicUsize::new(0), drop_ms: AtomicUsize::new(if c.slow_drop { 500 } else { 0 }) });
+    let w = Arc::new(World { calls: Mutex::new(vec![]), gauge: Mutex::new(HashMap::new()), over_limit: Mutex::new(None), limit, panic_next: AtomicBool::new(false), factory_count: AtomicUsize::new(0), block_ms: AtomicUsize::new(0), call_count: AtomicUsize::new(0), drop_ms: AtomicUsize::new(if c.slow_drop { 500 } else { 0 }), panic_all: AtomicBool::new(false), died: AtomicUsize::new(0), gate_closed: AtomicBool::new(false), gate_wakers: Mutex::new(vec![]) });
     // listeners are bound here so that their fds are known (accept-error injection is keyed by fd)
     let mut addrs = vec![];
     let mut fds = vec![];
@@ -508,6 +571,9 @@ fn run_once_inner(c: &Case, prop: Prop) -> Result<Obs, (Fail, bool)> {
     let (htx, hrx) = mpsc::channel::<Result<ServerHandle, String>>();
     let server_done = Arc::new(AtomicBool::new(false));
     let sd = server_done.clone();
+    let sd2 = server_done.clone();
+    let may_exit = ExitGuard(Arc::new(AtomicBool::new(false)));
+    let may_exit2 = may_exit.0.clone();
     let w2 = w.clone();
     let timeout = c.shutdown_timeout_s.clamp(1, 30);
     let setters = c.setters;
@@ -602,6 +668,13 @@ fn run_once_inner(c: &Case, prop: Prop) -> Result<Obs, (Fail, bool)> {
                 let srv = b.run();
                 let _ = htx.send(Ok(srv.handle()));
                 let _ = srv.await;
+                sd2.store(true, Ordering::SeqCst);
+                // the system outlives the server (an application goes on after `srv.await`): workers
+                // that survived the stop are not swept away by the end of the system
+                let t0 = Instant::now();
+                while !may_exit2.load(Ordering::SeqCst) && t0.elapsed() < Duration::from_secs(120) {
+                    actix_rt::time::sleep(Duration::from_millis(2)).await;
+                }
             });
             let _ = r;
             sd.store(true, Ordering::SeqCst);
@@ -629,6 +702,7 @@ fn run_once_inner(c: &Case, prop: Prop) -> Result<Obs, (Fail, bool)> {
         handle,
         server_thread: Some(server_thread),
         server_done,
+        may_exit,
         w: w.clone(),
         clients: vec![],
         addrs,
@@ -771,6 +845,9 @@ fn run_once_inner(c: &Case, prop: Prop) -> Result<Obs, (Fail, bool)> {
                 r.label("inject");
             }
             Op::PanicNext => {
+                if r.w.gate_closed.load(Ordering::SeqCst) {
+                    continue;
+                }
                 r.w.panic_next.store(true, Ordering::SeqCst);
                 // the connection that triggers the panic
                 r.refresh();
@@ -859,10 +936,128 @@ fn run_once_inner(c: &Case, prop: Prop) -> Result<Obs, (Fail, bool)> {
                     r.w.panic_next.store(false, Ordering::SeqCst);
                 }
             }
+            Op::GateClose => {
+                if r.paused || r.stopped {
+                    continue;
+                }
+                r.w.gate_closed.store(true, Ordering::SeqCst);
+                r.label("services-not-ready");
+            }
+            Op::GateOpen => {
+                if r.w.gate_closed.load(Ordering::SeqCst) {
+                    r.refresh();
+                    if r.waiting() > 0 {
+                        r.label("queued-while-not-ready-then-ready");
+                    }
+                    r.w.open_gate();
+                }
+            }
+            Op::PanicAll => {
+                r.refresh();
+                if r.paused || r.busy_until.is_some() || r.held() > 0 || r.waiting() > 0 || r.workers < 2 || r.w.gate_closed.load(Ordering::SeqCst) {
+                    continue;
+                }
+                let Some(a) = r.addrs[0].tcp() else { continue };
+                // everything released so far must have left its worker
+                let t0 = Instant::now();
+                while r.w.gauge.lock().unwrap().values().sum::<usize>() > 0 && t0.elapsed() < BOUND {
+                    thread::sleep(Duration::from_millis(2));
+                }
+                let before = r.w.factory_count.load(Ordering::SeqCst);
+                let died0 = r.w.died.load(Ordering::SeqCst);
+                r.w.panic_all.store(true, Ordering::SeqCst);
+                // one poison connection per worker of the rotation
+                let mut poison = vec![];
+                for _ in 0..r.workers {
+                    if let Ok(s) = std::net::TcpStream::connect_timeout(&a, BOUND) {
+                        let _ = socket2::SockRef::from(&s).set_linger(Some(Duration::ZERO));
+                        poison.push(s);
+                    }
+                }
+                let t0 = Instant::now();
+                let mut last = (died0, Instant::now());
+                loop {
+                    let d = r.w.died.load(Ordering::SeqCst);
+                    if d != last.0 {
+                        last = (d, Instant::now());
+                    }
+                    if d - died0 >= r.workers || last.1.elapsed() > Duration::from_millis(400) || t0.elapsed() > BOUND {
+                        break;
+                    }
+                    thread::sleep(Duration::from_millis(2));
+                }
+                r.w.panic_all.store(false, Ordering::SeqCst);
+                thread::sleep(Duration::from_millis(100));
+                drop(poison);
+                let died = r.w.died.load(Ordering::SeqCst) - died0;
+                if died == 0 {
+                    continue;
+                }
+                if std::env::var("VERIF_TRACE").is_ok() { eprintln!("[l4] panic-all: {} of {} workers died", died, r.workers); }
+                r.panics += died;
+                r.label("worker-panic");
+                if died >= 17 {
+                    r.label(">=17-workers-dead-at-once");
+                }
+                // probes: connect, say who you are, wait for the greeting, go away
+                let mut probe = |r: &mut Run, wait: Duration| -> bool {
+                    let Ok(mut s) = std::net::TcpStream::connect_timeout(&a, BOUND) else { return false };
+                    let _ = socket2::SockRef::from(&s).set_linger(Some(Duration::ZERO));
+                    let id = 0x4000_0000 + next_id;
+                    next_id += 1;
+                    let _ = s.write_all(&id.to_le_bytes());
+                    let _ = s.set_read_timeout(Some(wait));
+                    let mut b = [0u8; 1];
+                    let ok = s.read_exact(&mut b).is_ok();
+                    drop(s);
+                    if ok {
+                        // its handler has left the worker before the next probe
+                        let t0 = Instant::now();
+                        while r.w.gauge.lock().unwrap().values().sum::<usize>() > 0 && t0.elapsed() < BOUND {
+                            thread::sleep(Duration::from_millis(1));
+                        }
+                    }
+                    ok
+                };
+                // every faulted worker is replaced: one instantiation per listening socket and fault
+                let want = before + died * nsock;
+                let t1 = Instant::now();
+                while r.w.factory_count.load(Ordering::SeqCst) < want && t1.elapsed() < BOUND * 3 {
+                    // the faults are discovered by a dispatch
+                    probe(&mut r, Duration::from_millis(100));
+                    thread::sleep(Duration::from_millis(20));
+                }
+                let now = r.w.factory_count.load(Ordering::SeqCst);
+                if now < want {
+                    r.flag(Prop::C08, "C08/not-all-replaced", format!("{} workers died at once but only {} replacement service instantiations happened within {:?} (expected {}: {} listening socket(s) each)", died, now - before, BOUND * 3, died * nsock, nsock), true);
+                    continue;
+                }
+                thread::sleep(Duration::from_millis(150));
+                let now = r.w.factory_count.load(Ordering::SeqCst);
+                if now > want {
+                    r.flag(Prop::C08, "C08/too-many-replacements", format!("{} worker faults led to {} service instantiations ({} listening sockets)", died, now - before, nsock), false);
+                }
+                // every replacement is in the rotation: two rounds of connections reach every worker
+                let calls0 = r.w.calls.lock().unwrap().len();
+                let mut unserved = 0;
+                for _ in 0..2 * r.workers {
+                    if !probe(&mut r, BOUND) {
+                        unserved += 1;
+                    }
+                }
+                if unserved > 0 {
+                    r.flag(Prop::C08, "C08/service-not-resumed", format!("{} of {} connections made after all {} replacements had started were not served", unserved, 2 * r.workers, died), true);
+                    continue;
+                }
+                let threads: std::collections::HashSet<ThreadId> = r.w.calls.lock().unwrap()[calls0..].iter().map(|c| c.worker_thread).collect();
+                if threads.len() < r.workers {
+                    r.flag(Prop::C08, "C08/replacement-not-in-rotation", format!("after {} of {} workers were replaced, {} connections made one after the other (each finished before the next) were served by only {} distinct worker threads", died, r.workers, 2 * r.workers, threads.len()), false);
+                }
+            }
             Op::Sleep { ms } => thread::sleep(Duration::from_millis(ms as u64 % 700)),
             Op::HoldBusy { l, ms } => {
                 r.refresh();
-                if r.paused || r.busy_until.is_some() || r.clients.len() >= 11 || r.held() >= r.workers * r.limit || r.waiting() > 0 {
+                if r.paused || r.busy_until.is_some() || r.clients.len() >= 11 || r.held() >= r.workers * r.limit || r.waiting() > 0 || r.w.gate_closed.load(Ordering::SeqCst) {
                     continue;
                 }
                 let l = vcore::pick(l, nl);
@@ -939,14 +1134,29 @@ fn run_once_inner(c: &Case, prop: Prop) -> Result<Obs, (Fail, bool)> {
                 if r.paused {
                     r.label("stop-while-paused");
                 }
+                let gated_at_stop = r.w.gate_closed.load(Ordering::SeqCst);
+                if gated_at_stop && r.waiting() > 0 {
+                    // let the accept thread hand over what it can before the stop
+                    thread::sleep(Duration::from_millis(60));
+                    r.label("stop-with-connections-queued-at-workers");
+                }
                 let t0 = Instant::now();
                 let fut1 = r.handle.stop(graceful);
                 let fut2 = if twice { Some(r.handle2.stop(graceful)) } else { None };
                 let timeout = Duration::from_secs(c.shutdown_timeout_s.clamp(1, 30));
                 // release the held connections a little later (graceful must wait for exactly that)
-                let release_after = Duration::from_millis(400);
+                // with a handler that occupies a worker thread the held connections are released
+                // only after that has ended: the graceful stop has to wait beyond it
+                let busy_left = r.busy_until.map(|b| b.saturating_duration_since(Instant::now())).unwrap_or(Duration::ZERO);
+                let release_after = if busy_left > Duration::ZERO { busy_left + Duration::from_millis(900) } else { Duration::from_millis(400) };
+                if busy_left > Duration::ZERO && graceful && !held_at_stop.is_empty() {
+                    r.label("graceful-stop-over-a-busy-period");
+                }
+                let block_after = c.block_after_stop && graceful && !held_at_stop.is_empty() && busy_left == Duration::ZERO && timeout >= Duration::from_secs(10);
+                let release_after = if block_after { Duration::from_millis(150 + 2600 + 1200) } else { release_after };
+                let mut blocked = false;
                 let mut released_at: Option<Instant> = None;
-                let will_release = graceful && !held_at_stop.is_empty() && timeout > Duration::from_secs(1);
+                let will_release = graceful && !held_at_stop.is_empty() && timeout > Duration::from_secs(1) && release_after + Duration::from_millis(300) < timeout;
                 let (dtx, drx) = mpsc::channel();
                 if drop_future {
                     drop(fut1);
@@ -969,6 +1179,13 @@ fn run_once_inner(c: &Case, prop: Prop) -> Result<Obs, (Fail, bool)> {
                 let hard = timeout + Duration::from_secs(8);
                 let mut completed: Option<Instant> = None;
                 while t0.elapsed() < hard {
+                    if block_after && !blocked && t0.elapsed() >= Duration::from_millis(150) {
+                        blocked = true;
+                        r.w.block_ms.store(2600, Ordering::SeqCst);
+                        let _ = r.clients[held_at_stop[0]].sock.write_all(b"B");
+                        r.busy_until = Some(Instant::now() + Duration::from_millis(2600));
+                        r.label("worker-thread-blocked-during-graceful-stop");
+                    }
                     if will_release && released_at.is_none() && t0.elapsed() >= release_after {
                         for i in &held_at_stop {
                             let _ = r.clients[*i].sock.write_all(b"x");
@@ -1045,6 +1262,28 @@ fn run_once_inner(c: &Case, prop: Prop) -> Result<Obs, (Fail, bool)> {
                 if !r.server_done.load(Ordering::SeqCst) {
                     r.flag(Prop::C06, "C06/server-future-unresolved", "the Server future did not resolve after stop completed".into(), true);
                 }
+                // once the stop has completed and the Server future has resolved, every worker is
+                // gone: connections that were still open (held, or queued at a worker) are closed
+                if r.server_done.load(Ordering::SeqCst) {
+                    // (a worker thread occupied by a blocking handler gets to its stop command when
+                    // that handler returns)
+                    let t2 = r.busy_until.map(|b| b.max(Instant::now())).unwrap_or_else(Instant::now);
+                    loop {
+                        r.refresh();
+                        let open: Vec<u32> = r.clients.iter().filter(|c| matches!(c.state, CState::Held | CState::Waiting)).map(|c| c.id).collect();
+                        if open.is_empty() {
+                            break;
+                        }
+                        if Instant::now().saturating_duration_since(t2) > Duration::from_secs(2) {
+                            let msg = format!("connections {:?} are still open (not released) 2 s after the stop had completed and the Server future had resolved: a worker is still running ({} worker panics before the stop)", open, r.panics);
+                            r.flag(Prop::C01, "C01/leaked-at-stop", msg.clone(), true);
+                            r.flag(Prop::C06, "C06/worker-survives-stop", msg.clone(), true);
+                            r.flag(Prop::C08, "C08/replacement-not-stopped", msg, true);
+                            break;
+                        }
+                        thread::sleep(Duration::from_millis(5));
+                    }
+                }
                 // nothing is served after completion
                 let calls_before = r.w.calls.lock().unwrap().len();
                 let mut late = vec![];
@@ -1057,12 +1296,28 @@ fn run_once_inner(c: &Case, prop: Prop) -> Result<Obs, (Fail, bool)> {
                         }
                     }
                 }
+                if gated_at_stop {
+                    // the services become ready again after the stop: nothing that was queued at
+                    // a worker may be served now
+                    r.w.open_gate();
+                    thread::sleep(Duration::from_millis(250));
+                }
                 thread::sleep(Duration::from_millis(150));
                 if r.w.calls.lock().unwrap().len() > calls_before {
-                    r.flag(Prop::C06, "C06/served-after-stop", "a connection made after stop had completed was handed to a service".into(), false);
+                    let msg = if gated_at_stop { "a connection (queued at a worker while its services were not ready, or made after the stop) was handed to a service after stop had completed and the Server future had resolved" } else { "a connection made after stop had completed was handed to a service" };
+                    r.flag(Prop::C06, "C06/served-after-stop", msg.into(), false);
+                    r.flag(Prop::C01, "C01/served-after-stop", msg.into(), false);
+                    r.flag(Prop::C08, "C08/replacement-not-stopped", msg.into(), false);
                 }
             }
         }
+    }
+    if !r.stopped && r.w.gate_closed.load(Ordering::SeqCst) {
+        r.refresh();
+        if r.waiting() > 0 {
+            r.label("queued-while-not-ready-then-ready");
+        }
+        r.w.open_gate();
     }
     if !r.stopped && !r.found.iter().any(|f| f.0 == prop) {
         r.settle(false);
@@ -1147,6 +1402,7 @@ fn run_once_inner(c: &Case, prop: Prop) -> Result<Obs, (Fail, bool)> {
         while !r.server_done.load(Ordering::SeqCst) && t0.elapsed() < Duration::from_secs(10) {
             thread::sleep(Duration::from_millis(2));
         }
+        r.may_exit.0.store(true, Ordering::SeqCst);
         if r.server_done.load(Ordering::SeqCst) {
             let _ = t.join();
         }
@@ -1198,8 +1454,33 @@ pub mod gen {
                         ops.push(Op::Release { k });
                     }
                 }
-                Case { workers, limit: 12, listeners, shutdown_timeout_s: 1, ops, bind_mode, slow_drop: false, setters: (bind_mode as usize + workers) as u8 }
+                Case { workers, limit: 12, listeners, shutdown_timeout_s: 1, ops, bind_mode, slow_drop: false, setters: (bind_mode as usize + workers) as u8, block_after_stop: false }
             })
+    }
+
+    /// C08: many workers, all of them dead before the accept thread notices the first fault
+    pub fn panic_all_strategy() -> impl Strategy<Value = Case> {
+        (prop_oneof![1 => 2usize..6, 3 => 18usize..27], 1usize..4, 0u8..3, prop::collection::vec(sel(), 0..4), any::<bool>(), prop::option::weighted(0.5, any::<bool>())).prop_map(|(workers, limit, bind_mode, pre, twice, stop)| {
+            let mut ops: Vec<Op> = vec![];
+            for l in &pre {
+                ops.push(Op::Connect { l: *l });
+            }
+            ops.push(Op::Settle);
+            for _ in &pre {
+                ops.push(Op::Release { k: 0 });
+            }
+            ops.push(Op::Settle);
+            ops.push(Op::PanicAll);
+            if twice {
+                ops.push(Op::PanicAll);
+            }
+            ops.push(Op::Connect { l: 0 });
+            ops.push(Op::Settle);
+            if let Some(graceful) = stop {
+                ops.push(Op::Stop { graceful, twice: false, drop_future: false });
+            }
+            Case { workers, limit, listeners: vec![LKind::Tcp], shutdown_timeout_s: 1, ops, bind_mode, slow_drop: false, setters: (workers + limit) as u8, block_after_stop: false }
+        })
     }
 
     fn sel() -> impl Strategy<Value = u16> {
@@ -1223,6 +1504,8 @@ pub mod gen {
         pub taskpanic: u32,
         /// weight of "a client resets its connection right after connecting"
         pub abort: u32,
+        /// weight of "the services stop reporting readiness for a while"
+        pub gate: u32,
     }
 
     pub fn strategy(p: P) -> impl Strategy<Value = Case> {
@@ -1269,8 +1552,26 @@ pub mod gen {
             alts.push((p.panic, Just(vec![Op::PanicNext, Op::Settle]).boxed()));
             alts.push((p.panic, (sel(), sel()).prop_map(|(l, l2)| vec![Op::PanicNext, Op::Connect { l }, Op::Connect { l: l2 }, Op::Settle]).boxed()));
         }
+        if p.gate > 0 {
+            alts.push((p.gate, (prop::collection::vec(sel(), 1..5)).prop_map(|ls| {
+                let mut v = vec![Op::GateClose];
+                v.extend(ls.into_iter().map(|l| Op::Connect { l }));
+                v.extend([Op::Sleep { ms: 80 }, Op::GateOpen, Op::Settle]);
+                v
+            }).boxed()));
+            if p.panic > 0 {
+                alts.push((p.gate, (prop::collection::vec(sel(), 1..5)).prop_map(|ls| {
+                    let mut v = vec![Op::PanicNext, Op::Settle, Op::GateClose];
+                    v.extend(ls.into_iter().map(|l| Op::Connect { l }));
+                    v.push(Op::Sleep { ms: 80 });
+                    v
+                }).boxed()));
+            }
+        }
         if p.busy > 0 {
             alts.push((p.busy, (sel(), any::<u16>()).prop_map(|(l, ms)| vec![Op::HoldBusy { l, ms }]).boxed()));
+            // connections held on the workers, then a handler that occupies a worker thread
+            alts.push((p.busy, (sel(), sel(), any::<u16>()).prop_map(|(l, l2, ms)| vec![Op::Connect { l }, Op::Connect { l: l2 }, Op::Settle, Op::HoldBusy { l, ms }]).boxed()));
         }
         let body = prop::collection::vec(proptest::strategy::Union::new_weighted(alts), 1..6);
         let stop = if p.stop > 0 {
@@ -1279,8 +1580,10 @@ pub mod gen {
             Just(None).boxed()
         };
         let kinds = if p.uds { vec![LKind::Tcp, LKind::Tcp, LKind::Uds] } else { vec![LKind::Tcp] };
-        (1usize..4, 1usize..=p.max_limit, prop::collection::vec(prop::sample::select(kinds), 1..3), prop::sample::select(vec![1u64, 2]), body, stop, prop::bool::weighted(0.2), 0u8..3, prop::bool::weighted(if p.panic > 0 { 0.5 } else { 0.0 }))
-            .prop_map(|(workers, limit, listeners, shutdown_timeout_s, body, stop, pause_before_stop, bind_mode, slow_drop)| {
+        (1usize..4, 1usize..=p.max_limit, prop::collection::vec(prop::sample::select(kinds), 1..3), prop::sample::select(if p.busy > 0 { vec![1u64, 2, 30, 30] } else { vec![1u64, 2] }), body, stop, prop::bool::weighted(0.2), 0u8..3, prop::bool::weighted(if p.panic > 0 { 0.5 } else { 0.0 }), prop::bool::weighted(if p.busy > 0 { 0.35 } else { 0.0 }))
+            .prop_map(|(workers, limit, listeners, shutdown_timeout_s, body, stop, pause_before_stop, bind_mode, slow_drop, block_after_stop)| {
+                let block_after_stop = block_after_stop && matches!(stop, Some(Op::Stop { graceful: true, .. }));
+                let shutdown_timeout_s = if block_after_stop { 30 } else { shutdown_timeout_s };
                 let mut ops: Vec<Op> = body.into_iter().flatten().collect();
                 if let Some(s) = stop {
                     ops.push(Op::Settle);
@@ -1289,7 +1592,7 @@ pub mod gen {
                     }
                     ops.push(s);
                 }
-                Case { workers, limit, listeners, shutdown_timeout_s, ops, bind_mode, slow_drop, setters: (bind_mode as usize + workers * 3 + limit) as u8 }
+                Case { workers, limit, listeners, shutdown_timeout_s, ops, bind_mode, slow_drop, setters: (bind_mode as usize + workers * 3 + limit) as u8, block_after_stop }
             })
     }
 }
